@@ -57,11 +57,11 @@ fn list_or_value(mut list: Vec<IppValue>) -> IppValue {
     }
 }
 
-// Verification hook: same initial content as `vec![vec![]]`, with spare capacity so that the model
-// checker does not have to reason about a re-allocation of the stack itself.
+// Verification hook: same initial content as `vec![vec![]]`, in the pool-backed stack model (the model
+// checker cannot keep the inner lists' pointers constant once they sit in a heap byte buffer).
 #[cfg(kani)]
-fn verif_context() -> Vec<Vec<IppValue>> {
-    let mut context = Vec::with_capacity(8);
+fn verif_context() -> crate::verif_shim::Stack<Vec<IppValue>> {
+    let mut context = crate::verif_shim::Stack::new();
     context.push(vec![]);
     context
 }
@@ -69,7 +69,10 @@ fn verif_context() -> Vec<Vec<IppValue>> {
 struct ParserState {
     current_group: Option<IppAttributeGroup>,
     last_name: Option<String>,
+    #[cfg(not(kani))]
     context: Vec<Vec<IppValue>>,
+    #[cfg(kani)]
+    context: crate::verif_shim::Stack<Vec<IppValue>>,
     attributes: IppAttributes,
 }
 
